@@ -1,0 +1,14 @@
+//go:build verif
+
+// Contracts for the deductive verification in /verif (govc): helper of the x509 JSON encoders
+// (area x509json, properties C02, C33). This file contains comments only; it is compiled only
+// with -tags verif and declares nothing.
+
+package asn1
+
+// "String returns the dotted-decimal form of the identifier": total for every identifier (any
+// length, any arcs), no effect on memory. The text itself is not specified (strconv.Itoa is
+// opaque, /verif/extern/std.contracts).
+//@ func (ObjectIdentifier).String
+//@   modifies nothing
+//@   terminates
